@@ -257,10 +257,10 @@ func C04(c *core.Ctx) {
 	// several senders on one client, a peer that is slow but inside the timeout for every message: each Send's
 	// timeout runs from ITS OWN write, not from the moment it started to wait for the sender before it
 	for round := 0; round < c.N(2, 10); round++ {
-		cfq := ccfg{host: []byte("h"), ack: true, timeout: 600 * time.Millisecond}
+		cfq := ccfg{host: []byte("h"), ack: true, timeout: 750 * time.Millisecond}
 		mk := func(id string) concOp {
 			o := concSend(cfq, "message", 20, id, true)
-			o.ackDelay = 350 * time.Millisecond
+			o.ackDelay = 400 * time.Millisecond
 			return o
 		}
 		progs := [][]concOp{{mk(fmt.Sprintf("q%d-a", round))}, {mk(fmt.Sprintf("q%d-b", round))}}
@@ -269,11 +269,11 @@ func C04(c *core.Ctx) {
 		}
 		run := runConcFree(cfq, []concOp{{kind: "C", dialOK: true}}, progs)
 		c.Eval()
-		c.Hist(fmt.Sprintf("%d queued senders, acks after 350 ms with a 600 ms timeout", len(progs)))
+		c.Hist(fmt.Sprintf("%d queued senders, acks after 400 ms with a 750 ms timeout", len(progs)))
 		for w := range progs {
 			if len(run.rets[w]) != 1 || run.rets[w][0] != "ok" {
-				c.Violation("judge-go", "c04-queued-timeout", fmt.Sprintf("sender %d of %d queued senders: %v although its ack arrived 350 ms after its own write (timeout 600 ms)", w, len(progs), run.rets[w]),
-					map[string]interface{}{"timeout_ms": 600, "ack_delay_ms": 350, "results": renderRets(run.rets)})
+				c.Violation("judge-go", "c04-queued-timeout", fmt.Sprintf("sender %d of %d queued senders: %v although its ack arrived 400 ms after its own write (timeout 750 ms)", w, len(progs), run.rets[w]),
+					map[string]interface{}{"timeout_ms": 750, "ack_delay_ms": 400, "results": renderRets(run.rets)})
 			}
 		}
 	}
